@@ -247,7 +247,7 @@ func init() {
 			res, _ := runTrajectory(sc, env, nil, []Oracle{o}, nil)
 			return res
 		},
-		Quick: 640, Thorough: 20000,
+		Quick: 1920, Thorough: 60000,
 		NonTrivial: func(res *Result) bool { return res.Status == "ok" && res.Stats["rotation.crops-harvested"] > 0 },
 		Rule:       "one generated world per evaluation: rotations of shipped annual crops whose sowing windows open after the latest harvest date of the preceding crop, a generated automatic-management table, the 16 on/off combinations of the four automation switches in rotation over the scenario index; the management event stream and the crop result stream are checked as histories against the rotation and the table (order and identity of crops, fixed dates, sowing inside the window and after the previous harvest, harvest not later than the latest date), probes give the development stage and amount of every automatic irrigation and the sign of every automatic N application; non-trivial = at least one crop of the rotation was harvested",
 		ReachKeys:  []string{"rotation.crops-harvested", "reach.triggered-sowing", "reach.forced-sowing-at-window-end", "reach.triggered-harvest", "reach.forced-harvest-at-latest-date", "reach.auto-irrigation-day", "reach.auto-n-application"},
